@@ -517,14 +517,30 @@ func (lw *lazyWriter) Write(p []byte) (n int, err error) {
 	if lw.w == nil {
 		acquired := make(chan struct{})
 		go func() {
+			called := false
 			lw.withWriterFunc(func(w io.Writer) {
+				called = true
 				lw.w = w
 				close(acquired)
 				<-lw.done
 			})
+			if !called {
+				// no writer could be obtained (e.g. the connection is already
+				// closed); fail the write instead of blocking forever
+				lw.w = errWriter{xerrors.New("failed to acquire writer")}
+				close(acquired)
+			}
 		}()
 		<-acquired
 	}
 
 	return lw.w.Write(p)
+}
+
+type errWriter struct {
+	err error
+}
+
+func (e errWriter) Write([]byte) (int, error) {
+	return 0, e.err
 }
